@@ -34,9 +34,12 @@ LEVEL_TEXT = (
     "one of seven named mechanisms was triggered before it; proved by structural induction over the mutually inductive AST with a "
     "level-by-level simulation invariant between the property's scopes and the context stack. The full statement is false for the "
     "code as it is: one Lean counterexample per mechanism (C02_cex_dotted_import, _walrus_in_boolop, _walrus_in_expr_stmt, "
-    "_lambda_param, _comprehension_var, _nested_target, _del_builtin; for `del`: C02_cex_del_session_record, _del_sequence_target), each "
+    "_lambda_param, _comprehension_var, _nested_target, _del_builtin, _except_name; for `del`: C02_cex_del_session_record, "
+    "_del_sequence_target), each "
     "reproduced on the real code and recorded as an open finding. C02_python_wins_repaired: with all mechanisms repaired the "
-    "statement holds with no guard at all. C02_user_name_shield, C02_store_same_stmt, C02_del_returns, C02_scope_pop. "
+    "statement holds with no guard at all. C02_user_name_shield (a user-bound bare name is never read from builtins), "
+    "C02_store_same_stmt, C02_del_returns (after `del x` of a name recorded once, through ANY statements that do not record x, a line "
+    "reading x is offered again), C02_scope_pop (+_class, _offers: what only a def / class body records is gone after it, at any depth). "
     "C02_parse_before_exec: on every path of Execer.exec / eval (skeleton regenerated from the source every run) builtin exec / "
     "eval is applied only to code compiled from the whole input. Tie: generated programs through the real Execer.compile/parse "
     "(decision per statement, 0 disagreements with Impl), the real Execer.exec against builtin exec (operation log, namespace, "
@@ -64,7 +67,7 @@ POOL = [
 ]
 IDX = {n: i for i, n in enumerate(POOL)}
 ATTRS = ["path", "sep", "real", "foo"]
-FIX_NAMES = ["dotted", "walrus", "lam", "comp", "delB", "nested", "delSeq", "delSess"]
+FIX_NAMES = ["dotted", "walrus", "lam", "comp", "delB", "nested", "delSeq", "delSess", "handler"]
 # finding key per repaired mechanism
 FIX_KEY = {
     "dotted": "dotted-import-records-dotted-string",
@@ -75,6 +78,7 @@ FIX_KEY = {
     "nested": "nested-unpacking-target-records-first-name-only",
     "delSeq": "del-of-tuple-or-list-target-ignored",
     "delSess": "del-leaves-session-record",
+    "handler": "except-name-struck-by-del-inside-try",
 }
 
 BINOPS = ["-", "|", "+", "*", ">>", "&", "/", "%"]
@@ -592,7 +596,11 @@ class Gen:
             m = r.choice([1, 1, 2])
             return ("o", "compare", [sub() for _ in range(m + 1)], [r.choice(CMPOPS) for _ in range(m)])
         if k < 0.50:
-            return ("o", "tuple", [sub() for _ in range(r.randint(0, 3))], r.choice(["tuple", "list", "tuple"]))
+            elts = [sub() for _ in range(r.randint(0, 3))]
+            shape = r.choice(["tuple", "list", "tuple"])
+            if len(elts) == 1 and elts[0][0] == "c" and elts[0][1] == "gen":
+                shape = "tuple"  # (`[(x for x in y)]` is read by xonsh as a list comprehension — a C01 matter)
+            return ("o", "tuple", elts, shape)
         if k < 0.54:
             return ("o", "subscript", [sub(), sub()], None)
         if k < 0.58:
@@ -839,7 +847,9 @@ class Gen:
             return ("for", sid, t, it, body, orelse)
         if k < 0.95:
             kind = r.choice(["if", "if", "while"])
-            if r.random() < 0.6:
+            if self.runnable and kind == "while" and env["sess"]:
+                test = ("n", r.choice(sorted(env["sess"])))
+            elif r.random() < 0.6:
                 test = self.expr(env, 1)
             else:
                 # the `if (n := f(x)) > 10 and n < 20:` idiom
@@ -953,8 +963,9 @@ class Real:
         warnings.filterwarnings("ignore", category=DeprecationWarning)
         self.B = [i for i, n in enumerate(POOL) if hasattr(builtins, n)]
 
-    def tree_via_compile(self, src, sess):
-        """Run `Execer.compile` exactly as the shell does (glbs = the session namespace) and return the tree that its
+    def tree_via_compile(self, src, sess, local_only=()):
+        """Run `Execer.compile` as the shell does (glbs = locs = the session namespace; or, with `local_only`, those session
+        names in a separate locals mapping as ExecAlias / macros / execx(locs=…) have them) and return the tree that its
         call to `Execer.parse` produced (captured on the way out; the code under test is not changed)."""
         ex = self.ex
         got = {}
@@ -965,11 +976,12 @@ class Real:
             got["tree"] = t
             return t
 
-        glbs = {POOL[i]: None for i in sess}
+        glbs = {POOL[i]: None for i in sess if i not in local_only}
+        locs = glbs if not local_only else {POOL[i]: None for i in sess if i in local_only}
         ex.parse = spy
         try:
             try:
-                ex.compile(src, mode="exec", glbs=glbs, locs=glbs, filename="<c02>")
+                ex.compile(src, mode="exec", glbs=glbs, locs=locs, filename="<c02>")
             except SyntaxError as e:
                 if "tree" not in got:
                     return None, f"SyntaxError: {e}"
@@ -1074,18 +1086,23 @@ def observe(tree, prog):
 
 
 # ------------------------------------------------------------------------------------------------ model
+# mechanisms that the code under test no longer has (a finding whose status is `fixed: …`, or whose witness passes now): the model
+# is run with these repairs switched on, so that a correct upstream repair turns the finding off instead of raising an alarm
+ACTIVE = set()
+
+
 def fixes(*on):
-    return [n in on for n in FIX_NAMES]
+    return [(n in on or n in ACTIVE) for n in FIX_NAMES]
 
 
 def model(ctx, B, sess, prog_sx, fx=()):
     recs = ctx.driver.call("c02.run", list(B), list(sess), fixes(*fx), prog_sx)
     out = {}
     for sid, ok, delread, tame, shadow, g, decs in recs:
-        m = out.setdefault(sid, {"ok": True, "delRead": False, "tame": True, "shadow": False, "g": True, "offer": False, "builtin": False, "stmt": None, "ops": []})
+        m = out.setdefault(sid, {"ok": True, "delRead": set(), "tame": True, "shadow": False, "g": True, "offer": False, "builtin": False, "stmt": None, "ops": []})
         m["ok"] &= ok
         m["g"] &= g
-        m["delRead"] |= delread
+        m["delRead"] |= set(delread)
         m["tame"] &= tame
         m["shadow"] |= shadow
         for kind, v in decs:
@@ -1112,6 +1129,98 @@ def all_stmts(prog):
             yield from all_stmts(s[i])
 
 
+def _e_names(e, loads=True):
+    """names an expression mentions; with loads=False only what it may bind (walrus targets)"""
+    t = e[0]
+    if t == "n":
+        return {e[1]} if loads else set()
+    if t == "k":
+        return set()
+    if t == "o":
+        return set().union(*[_e_names(c, loads) for c in e[2]]) if e[2] else set()
+    if t == "b":
+        return set().union(*[_e_names(c, loads) for c in e[2]])
+    if t == "u":
+        return _e_names(e[2], loads)
+    if t == "l":
+        return (set(e[1]) if loads else set()) | _e_names(e[2], loads)
+    if t == "c":
+        out = (set(e[3]) if loads else set()) | _e_names(e[2], loads) | _e_names(e[4], loads)
+        for c in e[5]:
+            out |= _e_names(c, loads)
+        return out
+    return {e[1]} | _e_names(e[2], loads)
+
+
+def _t_names(t):
+    if t[0] in ("n", "a", "s"):
+        return {t[1]}
+    return set().union(*[_t_names(x) for x in t[2]]) if t[2] else set()
+
+
+def _mentions(s):
+    """every name the statement's own parts mention (an expression statement: only what it may bind)"""
+    k = s[0]
+    E = lambda es: set().union(*[_e_names(e) for e in es]) if es else set()  # noqa: E731
+    if k == "expr":
+        return _e_names(s[2], loads=False)
+    if k == "assign":
+        return set().union(*[_t_names(t) for t in s[2]]) | _e_names(s[3])
+    if k == "ann":
+        return _t_names(s[2]) | _e_names(s[3]) | E(s[4])
+    if k == "aug":
+        return _t_names(s[2]) | _e_names(s[4])
+    if k in ("imp", "impf"):
+        return {x for (h, d, a, _t) in s[2] for x in (h, a) if x is not None}
+    if k == "def":
+        return {s[2]} | set(s[3]) | E(s[4]) | E(s[6])
+    if k == "cls":
+        return {s[2]} | E(s[3]) | E(s[5])
+    if k == "for":
+        return _t_names(s[2]) | _e_names(s[3])
+    if k in ("while", "if"):
+        return _e_names(s[2])
+    if k == "with":
+        return E([c for c, _ in s[2]]) | set().union(*[_t_names(t) for _, t in s[2] if t is not None], set())
+    if k == "global":
+        return set(s[2])
+    if k == "ret":
+        return E(s[3])
+    return set()
+
+
+def gone_map(prog):
+    """sid -> names deleted earlier in the source and not mentioned by any statement since (in source order)"""
+    gone, out = set(), {}
+
+    def blk(b):
+        for s in b:
+            st(s)
+
+    def st(s):
+        nonlocal gone
+        k = s[0]
+        out[s[1]] = set(gone)
+        if k == "del":
+            gone |= set(s[2]) | set(s[3])
+        else:
+            gone -= _mentions(s)
+        if k == "try":
+            blk(s[2])
+            for h in s[3]:
+                out[h[0]] = set(gone)
+                gone -= (set().union(*[_e_names(e) for e in h[1]]) if h[1] else set()) | ({h[2]} if h[2] is not None else set())
+                blk(h[3])
+            blk(s[4])
+            blk(s[5])
+        else:
+            for i in {"def": [5], "cls": [4], "for": [4, 5], "while": [3, 4], "if": [3, 4], "with": [3]}.get(k, []):
+                blk(s[i])
+
+    blk(prog)
+    return out
+
+
 def classify(ctx, B, sess, prog_sx, sid, good):
     """Which single repaired mechanism makes the model give the answer the property asks for at `sid` (`good(record)`)?
     None = no known mechanism explains the failure."""
@@ -1127,7 +1236,7 @@ def classify(ctx, B, sess, prog_sx, sid, good):
     return None
 
 
-def check_program(ctx, stream, prog, sess, src=None):
+def check_program(ctx, stream, prog, sess, src=None, local_only=()):
     """one program through the real compile/parse, the Lean model and the Lean spec; returns the number of statements compared.
     With `src` (a witness / replay) the program is what CPython reads from that text."""
     real = Real.get()
@@ -1142,8 +1251,10 @@ def check_program(ctx, stream, prog, sess, src=None):
         if sx_b(back) != sx_b(prog):
             raise common.InfraError(f"the harness's printer and CPython's parser disagree about a program:\n{src}\n{sx_b(back)}\n{sx_b(prog)}")
     case = {"stream": stream, "session_names": [POOL[i] for i in sorted(sess)], "source": src}
+    if local_only:
+        case["session_names_in_locals_only"] = [POOL[i] for i in sorted(local_only)]
     prog_sx = sx_b(prog)
-    tree, err = real.tree_via_compile(src, sess)
+    tree, err = real.tree_via_compile(src, sess, local_only)
     if tree is None:
         ctx.count("impl-rejects-valid-python")
         ctx.case(stream, src, False)
@@ -1160,6 +1271,7 @@ def check_program(ctx, stream, prog, sess, src=None):
         shape_err = str(e)
     mod = model(ctx, real.B, sorted(sess), prog_sx)
     srclines = src.split("\n")
+    gone = gone_map(prog)
     nontriv = False
     n = 0
     if obs is None:
@@ -1218,7 +1330,8 @@ def check_program(ctx, stream, prog, sess, src=None):
                 k = classify(ctx, real.B, sorted(sess), prog_sx, sid, lambda r: not r["offer"]) if m["offer"] else None
                 ctx.spec_failure(c1, {"converted": True, "model_offers": m["offer"]},
                                  "every name the statement reads is bound, yet it was compiled into a subprocess call", k)
-            if s[0] == "expr" and len(s) > 3 and s[3] and m["delRead"] and not o["conv"] and real.cmd_valid(text):
+            # `del x` … a later line that reads x, nothing in between mentions x, x is not defined any more: back to a command
+            if s[0] == "expr" and len(s) > 3 and s[3] and (m["delRead"] & gone.get(sid, set())) and not o["conv"] and real.cmd_valid(text):
                 k = classify(ctx, real.B, sorted(sess), prog_sx, sid, lambda r: r["offer"]) if not m["offer"] else None
                 ctx.spec_failure(c1, {"converted": False, "model_offers": m["offer"]},
                                  "the statement reads a name that was deleted and is not bound any more, yet it stays Python", k)
@@ -1388,30 +1501,57 @@ def _canon_exc(e):
     return type(e).__name__ + ": " + re.sub(r"0x[0-9a-f]+", "0x?", str(e))[:120]
 
 
-def _world(names):
+def _world(names, lnames=()):
+    """(globals, locals): one namespace, or the names of `lnames` in a separate locals mapping"""
     del LOG[:]
     _TICK[0] = 0
-    return {n: V(n) for n in names}
+    glbs = {n: V(n) for n in names if n not in lnames}
+    locs = {n: V(n) for n in names if n in lnames} if lnames else glbs
+    return glbs, locs
 
 
 def _finish(ns, out, exc):
     import re
 
-    return {"log": [list(x) for x in LOG], "out": re.sub(r"0x[0-9a-f]+", "0x?", out.getvalue())[:2000], "exc": _canon_exc(exc), "ns": _canon_ns(ns)}
+    glbs, locs = ns
+    cns = _canon_ns(glbs) if locs is glbs else {"globals": _canon_ns(glbs), "locals": _canon_ns(locs)}
+    return {"log": [list(x) for x in LOG], "out": re.sub(r"0x[0-9a-f]+", "0x?", out.getvalue())[:2000], "exc": _canon_exc(exc), "ns": cns}
 
 
-def run_python(src, names, mode="exec"):
+class _alarm:
+    """a run that does not end (`while 1:`) is cut off: both interpreters then report RUNAWAY and the case is inconclusive"""
+
+    def __enter__(self):
+        import signal
+
+        def on(*_):
+            raise Budget("wall clock")
+
+        self.old = signal.signal(signal.SIGALRM, on)
+        self.left = signal.setitimer(signal.ITIMER_REAL, 2.0)
+
+    def __exit__(self, *a):
+        import signal
+
+        signal.setitimer(signal.ITIMER_REAL, 0)
+        signal.signal(signal.SIGALRM, self.old)
+        if self.left and self.left[0] > 0:
+            signal.setitimer(signal.ITIMER_REAL, max(0.1, self.left[0]))
+        return False
+
+
+def run_python(src, names, mode="exec", lnames=()):
     import contextlib
 
-    ns = _world(names)
+    ns = _world(names, lnames)
     out = io.StringIO()
     exc = None
     shown = []
     hook = sys.displayhook
     sys.displayhook = lambda v: shown.append(_tag(v)) if v is not None else None
     try:
-        with contextlib.redirect_stdout(out), contextlib.redirect_stderr(out):
-            exec(compile(src, "<c02>", mode, dont_inherit=True), ns, ns)
+        with contextlib.redirect_stdout(out), contextlib.redirect_stderr(out), _alarm():
+            exec(compile(src, "<c02>", mode, dont_inherit=True), ns[0], ns[1])
     except BaseException as e:  # noqa: BLE001
         exc = e
     finally:
@@ -1421,7 +1561,7 @@ def run_python(src, names, mode="exec"):
     return r
 
 
-def run_xonsh(src, names, mode="exec"):
+def run_xonsh(src, names, mode="exec", lnames=()):
     """the same source through the real Execer.exec; every subprocess helper of the session is replaced by a recorder"""
     import contextlib
 
@@ -1437,7 +1577,7 @@ def run_xonsh(src, names, mode="exec"):
 
         return f
 
-    ns = _world(names)
+    ns = _world(names, lnames)
     out = io.StringIO()
     exc = None
     shown = []
@@ -1446,8 +1586,8 @@ def run_xonsh(src, names, mode="exec"):
     for h in helpers:
         setattr(XSH, h, rec(h))
     try:
-        with contextlib.redirect_stdout(out), contextlib.redirect_stderr(out):
-            real.ex.exec(src, mode=mode, glbs=ns, locs=ns, filename="<c02>")
+        with contextlib.redirect_stdout(out), contextlib.redirect_stderr(out), _alarm():
+            real.ex.exec(src, mode=mode, glbs=ns[0], locs=ns[1], filename="<c02>")
     except BaseException as e:  # noqa: BLE001
         exc = e
     finally:
@@ -1460,8 +1600,9 @@ def run_xonsh(src, names, mode="exec"):
 
 
 def _exec_item(item):
-    src, names, mode = item
-    return {"py": run_python(src, names, mode), "xo": run_xonsh(src, names, mode)}
+    src, names, mode = item[:3]
+    lnames = item[3] if len(item) > 3 else []
+    return {"py": run_python(src, names, mode, lnames), "xo": run_xonsh(src, names, mode, lnames)}
 
 
 # ------------------------------------------------------------------------------------------------ streams
@@ -1483,7 +1624,9 @@ def stream_decisions(ctx, n, name="decisions"):
             break
         sess = set(ctx.rng.sample(range(len(POOL)), ctx.rng.choice([0, 1, 2, 4])))
         prog = renumber(g.program(sess))
-        check_program(ctx, name, prog, sess)
+        # where the session's names live: one namespace (the shell), or some of them in a separate locals mapping
+        local_only = set(i for i in sess if ctx.rng.random() < 0.5) if ctx.rng.random() < 0.4 else set()
+        check_program(ctx, name, prog, sess, local_only=local_only)
 
 
 def _runnable_batch(ctx, n, want_keep=True):
@@ -1522,7 +1665,9 @@ def stream_exec(ctx, n, name="exec-vs-python"):
         "(what the prompt uses) with the displayed value compared; non-trivial = the run logged at least 3 operations",
     )
     batch = _runnable_batch(ctx, n)
-    items = [[src, names, "exec"] for src, names, _p in batch]
+    # where the session's names live: one namespace (the shell), or some in a separate locals mapping (ExecAlias, macros, execx(locs=…))
+    split = lambda names: ([x for x in names if ctx.rng.random() < 0.5] if ctx.rng.random() < 0.35 else [])  # noqa: E731
+    items = [[src, names, "exec", split(names)] for src, names, _p in batch]
     # what the prompt does: one statement, mode `single`, the value goes to sys.displayhook
     singles = []
     for _ in range(max(10, n // 4)):
@@ -1533,11 +1678,12 @@ def stream_exec(ctx, n, name="exec-vs-python"):
         mod = model(ctx, Real.get().B, sorted(sess), sx_b(prog))
         if any(m["offer"] for m in mod.values()):
             continue
-        singles.append([to_source(prog)[0], [POOL[i] for i in sorted(sess)], "single"])
+        nm_ = [POOL[i] for i in sorted(sess)]
+        singles.append([to_source(prog)[0], nm_, "single", split(nm_)])
     items += singles
     res = common.map_in_child(_exec_item, items, per_item_timeout=30, label="c02-exec")
     for it, r in zip(items, res):
-        case = {"stream": name, "mode": it[2], "session_names": it[1], "source": it[0]}
+        case = {"stream": name, "mode": it[2], "session_names": it[1], "session_names_in_locals_only": it[3], "source": it[0]}
         if r is common.HANG or r == common.HANG:
             ctx.spec_failure(case, "no answer within 30 s", "a program in which every name is bound did not finish under Execer.exec", None)
             continue
@@ -1559,13 +1705,16 @@ def stream_exec(ctx, n, name="exec-vs-python"):
                              "every name is bound, yet Execer.exec did not behave like builtin exec of the same source", None)
 
 
-BROKEN = ["x = (", "y = [1, 2", "def f(:", "    z = 1", "x = 'abc", "foo(1, ", "class", "lambda", "if x", "for in y:", "x = = 1", "1 +", "@", "}", "x = {1: ", '"""open', "del", "import"]
+# malformed lines; most cannot be re-read as a command (brackets, strings, indentation), a few can (xonsh then runs a command: no claim)
+BROKEN = ["x = (", "y = [1, 2", "def f(:", "    z = 1", "x = 'abc", "foo(1, ", "}", "x = {1: ", '"""open', "x = )", "foo(", "[", "x = ]", "def f(x:",
+          "try:", "return (", "$(", "x = '''abc", "print('a' 1", "f(x for", "x = @(", "if x", "x = = 1", "1 +", "class"]
 
 
 def _syntax_item(item):
-    src, names, _mode = item
-    xo = run_xonsh(src, names, "exec")
-    before = _canon_ns(_world(names))
+    src, names, _mode = item[:3]
+    lnames = item[3] if len(item) > 3 else []
+    xo = run_xonsh(src, names, "exec", lnames)
+    before = _finish(_world(names, lnames), io.StringIO(), None)["ns"]
     return {"xo": xo, "before": before}
 
 
@@ -1621,18 +1770,32 @@ def translate(ctx):
 
 
 def replay_known(ctx):
-    """every open finding must still fail on the real code in the way its classifier says (else the model no longer corresponds)"""
+    """Every open finding must still fail on the real code in the way its classifier says, every fixed one must pass.  The model
+    variant follows the code: a mechanism whose witness passes is switched to its repaired behaviour for the rest of the run."""
+    key_fix = {v: k for k, v in FIX_KEY.items()}
+    ACTIVE.clear()
+    for f in ctx.known:
+        if f.get("status", "").startswith("fixed") and f["key"] in key_fix:
+            ACTIVE.add(key_fix[f["key"]])
     for f in ctx.known:
         w = f["witness"]
         before = len(ctx.spec_failures)
         try:
             sess = {IDX[n] for n in w["session_names"]}
-            check_program(ctx, "known-witness", None, sess, src=w["source"])
+            check_program(ctx, "known-witness", None, sess, src=w["source"], local_only={IDX[n] for n in w.get("session_names_in_locals_only", [])})
         except (Unsupported, KeyError, SyntaxError) as e:
             raise common.InfraError(f"known finding {f['key']}: witness unusable: {e}")
         new = ctx.spec_failures[before:]
         hit = [x for x in new if x["key"] == f["key"]]
-        ctx.replayed(f["key"], bool(hit), {"statement": hit[0]["case"].get("statement") if hit else None, "others": [x["key"] for x in new if x["key"] != f["key"]]})
+        if f.get("status") == "open" and not new and f["key"] in key_fix and key_fix[f["key"]] not in ACTIVE:
+            # the witness passes on this tree: the code no longer has the mechanism; the disagreements the buggy variant just
+            # produced on the witness are withdrawn and the repaired variant is used from here on
+            ACTIVE.add(key_fix[f["key"]])
+            ctx.disagreements[:] = [d for d in ctx.disagreements if d["case"].get("stream") != "known-witness" or d["case"].get("source") != w["source"]]
+            ctx.lean_notes.append(f"known finding {f['key']}: its witness passes on this tree; model switched to the repaired variant of that mechanism")
+        ctx.replayed(f["key"], bool(hit), {"statement": hit[0]["case"].get("statement") if hit else None, "others": [x["key"] for x in new if x["key"] != f["key"]],
+                                          "model_variant": "repaired" if key_fix.get(f["key"]) in ACTIVE else "as the code is"})
+    ctx.extra["model_variant_repairs_on"] = sorted(ACTIVE)
 
 
 def run(ctx):
@@ -1653,16 +1816,16 @@ def run(ctx):
         "helpers, run in a forked worker), syntax-error-runs-nothing."
     )
     replay_known(ctx)
-    stream_decisions(ctx, ctx.n(1500, 25000))
-    stream_exec(ctx, ctx.n(250, 4000))
-    stream_syntax(ctx, ctx.n(150, 2500))
+    stream_decisions(ctx, ctx.n(5000, 60000))
+    stream_exec(ctx, ctx.n(800, 10000))
+    stream_syntax(ctx, ctx.n(500, 6000))
 
 
 def search(ctx, reason):
     ctx.extra["search_reason"] = reason
-    stream_decisions(ctx, ctx.n(4000, 25000), name="search:decisions")
-    stream_exec(ctx, ctx.n(600, 4000), name="search:exec-vs-python")
-    stream_syntax(ctx, ctx.n(300, 2500), name="search:syntax-error-runs-nothing")
+    stream_decisions(ctx, ctx.n(8000, 40000), name="search:decisions")
+    stream_exec(ctx, ctx.n(1000, 6000), name="search:exec-vs-python")
+    stream_syntax(ctx, ctx.n(500, 3000), name="search:syntax-error-runs-nothing")
 
 
 def replay(ctx, path):
@@ -1672,7 +1835,7 @@ def replay(ctx, path):
     names = c.get("session_names", [])
     print(src)
     if c.get("stream", "").endswith("exec-vs-python"):
-        res = _exec_item([src, names, c.get("mode", "exec")])
+        res = _exec_item([src, names, c.get("mode", "exec"), c.get("session_names_in_locals_only", [])])
         bad = not _same_run(res["py"], res["xo"]) or any(x and x[0] == "SPAWN" for x in res["xo"]["log"])
         print(json.dumps(res, indent=1)[:3000])
     elif c.get("stream", "").endswith("syntax-error-runs-nothing"):
@@ -1683,7 +1846,7 @@ def replay(ctx, path):
     else:
         before = len(ctx.spec_failures)
         try:
-            check_program(ctx, "replay", None, {IDX[n] for n in names}, src=src)
+            check_program(ctx, "replay", None, {IDX[n] for n in names}, src=src, local_only={IDX[n] for n in c.get("session_names_in_locals_only", [])})
         except (Unsupported, SyntaxError) as e:
             print("cannot re-read the program:", e)
             return common.EXIT_INFRA
